@@ -194,6 +194,9 @@ def h_model(eng, case):
             return
     sane, why = ref_sane(m)
     err = None
+    import sys
+    lim = sys.getrecursionlimit()
+    sys.setrecursionlimit(min(lim, 600))      # a loader that recurses without end is reported quickly, in both modes
     try:
         if case.get('reload'):
             checker = Checker.load(wire, fns)
@@ -205,8 +208,13 @@ def h_model(eng, case):
         err = 'SemanticError'
     except _Budget:
         raise
+    except RecursionError:
+        err = 'RecursionError'
     except Exception as e:
-        err = exc_sig(e)
+        # (deep recursion can surface inside a z3 binding call as another exception class)
+        err = 'RecursionError' if 'recursion' in repr(e).lower() else exc_sig(e)
+    finally:
+        sys.setrecursionlimit(lim)
     field = pos[0] if pos[0] != 'node' else pos[2]
     if not sane:
         if err is None:
